@@ -1,2 +1,13 @@
-/-! Driver for C20 (stub: not built yet). -/
-def main : IO Unit := pure ()
+import Drivers.Proto
+import PymocaVerif.Model.CacheStateJson
+/-! Driver for C20: replays a history of edits / version changes / transfers on the
+    `CacheState` model and reports the decision of every `transfer_model` call. -/
+open Lean Drivers
+
+def handle (req : Json) : Except String Json := do
+  match ← getStr req "op" with
+  | "cache.run" => PymocaVerif.CacheState.runJson req
+  | "cache.convert" => PymocaVerif.CacheState.convertJson req
+  | o => throw s!"unknown-op {o}"
+
+def main : IO Unit := serve handle
